@@ -18,9 +18,17 @@ META = {
     'text': 'All histories up to the depth bound of a request with 0-2 speculative executions against 3 hosts: '
             'each pending attempt may be answered (rows, void, read-timeout/overloaded with each retry decision), '
             'its connection may fail, the earliest timer may fire, the next executor task may run; late answers '
-            'after completion are included.  In every state: callbacks+errbacks <= 1 per execution and never both, '
-            'result() agrees with the delivered outcome, a pair attached after completion fires exactly once; '
-            'whenever no attempt is outstanding and no task is queued, or nothing at all is enabled, the outcome exists.  '
+            'after completion are included.  Further configurations: a paged query with up to two further page fetches where the '
+            'application attaches one more callback/errback pair at any moment of the history (before completion, after a page '
+            'completed, after a failed fetch); an application USE statement (coordinator answers, the driver propagates the keyspace '
+            'with one USE per pool, each of them answered / refused / answered with an error / its connection lost / left unanswered); '
+            'an EXECUTE of a prepared statement answered UNPREPARED (re-prepare task on the executor, PREPARE answered or refused, '
+            'EXECUTE sent again).  In every state: callbacks+errbacks <= 1 per execution and never both, '
+            'result() agrees with the delivered outcome, a pair attached after completion fires exactly once, every pair attached '
+            'in the course of the history is invoked exactly once per page fetch completed since and sees the same kind of outcome; '
+            'whenever no attempt is outstanding and no task is queued, or nothing at all is enabled, or the client-timeout handler '
+            'of the current fetch has run (and did not re-arm itself, PYTHON-853), the outcome exists - the last clause in particular '
+            'when the timeout fires while a retry / re-prepare / re-execute task is still queued on the executor.  '
             'Schedule layer: two attempts outstanding on two connections, answered concurrently (every pair over rows / invalid / '
             'overloaded with RETHROW or RETRY_NEXT_HOST) by two reactor threads while the client timeout fires on the timer thread, an '
             'executor worker runs retries and a client thread attaches a second callback pair and blocks in result(); scheduling '
@@ -162,7 +170,9 @@ class H(explore.Harness):
             futs.append((len(o.results), len(o.errors), f._event.is_set(), type(f._final_exception).__name__,
                          f._query_retries, tuple(sorted(str(k) for k in f._errors)), f._paging_state, f._req_id,
                          f._connection.vid if f._connection is not None else None,
-                         tuple((len(x.results), len(x.errors)) for x in st.extra[fi]), st.timed_out[fi]))
+                         tuple((len(x.results), len(x.errors)) for x in st.extra[fi]), st.timed_out[fi],
+                         # what is registered decides who hears about the next page: part of the state
+                         len(f._callbacks), len(f._errbacks)))
         return (tuple(futs), tuple(st.retry.calls), st.pending_canon(), st.timers_canon(), st.tasks_canon(),
                 st.conn_canon(), st.pages)
 
@@ -306,7 +316,8 @@ def run(ctx):
     ctx.cov.setdefault('harnesses', {})['c14-sched'] = {'configs': len(cfgs), 'jobs': len(jobs), 'preemption_bounds': sorted(set(b for _, b in jobs)),
                                                          'executions': nexec, 'complete': True}
     ctx.cov['rule'] = ('state = event history replayed on a fresh real Session; non-trivial = distinct canonical state at depth >= 3; '
-                       'outcomes = (callbacks run, done?, final exception type)')
+                       'outcomes = (callbacks run, done?, final exception type); "timeout has fired" = a connection timer whose callback is '
+                       'ResponseFuture._on_timeout of this future ran and left no such timer behind')
     ctx.assume('handlers are atomic with respect to each other (single-threaded histories)')
     ctx.assume('virtual server answers are well-formed protocol v4 frames')
 
